@@ -14,10 +14,10 @@ def c12(ctx):
     quick = ctx.tier == "quick"
     tc = {"Sessions": '{"s1", "s2"}'}
     graphs = [
-        dict(name="c12-sym", constants=dict(Sessions='{"s1"}', ModeNames='{"cbcpad", "gcm16", "sha256", "rsasig"}',
+        dict(name="c12-sym", constants=dict(Sessions='{"s1"}', ModeNames='{"cbcpad", "gcm4", "sha256", "rsasig"}',
                                             Lens="{0, 1, 16, 17}", Depth="4", Foreign="FALSE"),
              trace_constants=tc, driver_args=[lib], maxlen=10),
-        dict(name="c12-mix", constants=dict(Sessions='{"s1"}', ModeNames='{"ecb", "ctr", "hmac", "rsaenc", "find"}',
+        dict(name="c12-mix", constants=dict(Sessions='{"s1"}', ModeNames='{"ecb", "ctr", "gcm16", "hmac", "rsaenc", "find"}',
                                             Lens="{0, 15, 16, 33}", Depth="3" if quick else "4", Foreign="TRUE"),
              trace_constants=tc, driver_args=[lib], maxlen=10),
     ]
@@ -25,7 +25,7 @@ def c12(ctx):
         graphs.append(dict(name="c12-two", constants=dict(Sessions='{"s1", "s2"}', ModeNames='{"cbcpad", "sha256"}',
                                                           Lens="{0, 16, 17}", Depth="4", Foreign="FALSE"),
                            trace_constants=tc, driver_args=[lib], maxlen=10))
-        graphs.append(dict(name="c12-des", constants=dict(Sessions='{"s1"}', ModeNames='{"des3pad", "gcm4", "cmac", "ecdsa"}',
+        graphs.append(dict(name="c12-des", constants=dict(Sessions='{"s1"}', ModeNames='{"des3pad", "gcm4", "gcm16", "cmac", "ecdsa"}',
                                                           Lens="{0, 7, 8, 9, 16}", Depth="4", Foreign="FALSE"),
                            trace_constants=tc, driver_args=[lib], maxlen=10))
     r = pipeline.graphs_replay(ctx, "MC_Ops", "Trace_Ops", "vf.drv_ops", graphs, INV, PROPS, maxlen=10, jobs=15)
